@@ -120,6 +120,23 @@ where
     }
 }
 
+#[cfg(feature = "verif-hooks")]
+impl<R, RNG, const N: usize, const D: usize> Device<R, RNG, N, D>
+where
+    R: PhyRxTx + Timings,
+    RNG: RngCore,
+{
+    /// Verification hook: read-only MAC/channel-plan snapshot.
+    pub fn verif_snapshot(&self) -> mac::VerifSnapshot {
+        self.shared.mac.verif_snapshot()
+    }
+
+    /// Verification hook: outcome of the channel selector for `rng`, on a clone of the region state.
+    pub fn verif_tx_outcome<G: RngCore>(&self, rng: &mut G, join: bool) -> mac::VerifTx {
+        self.shared.mac.verif_tx_outcome(rng, join)
+    }
+}
+
 pub(crate) struct Shared<R: PhyRxTx + Timings, RNG: RngCore, const N: usize, const D: usize> {
     pub(crate) radio: R,
     pub(crate) rng: RNG,
